@@ -12,7 +12,7 @@
    Every theorem is generic in the field; `C09_ex_field` shows the hypothesis is met by BFieldElement (C01). *)
 From Coq Require Import ZArith Bool List.
 From TF Require Import Word BFieldGen BField XField FieldOps FieldTheory PolyGen PolyCore PolySpec Ntt PolyDiv
-  PolyCoreProofs PolyDivProofs BFieldOk BFieldProofs.
+  PolyCoreProofs Dft NttDft PolyDivProofs BFieldOk BFieldProofs.
 Import ListNotations.
 Open Scope Z_scope.
 
@@ -165,3 +165,92 @@ Theorem C09_clean_divide_v1_empty_dividend_refuted :
             pdiv_clean_divide_v1 CLEAN_DIVIDE_CUTOFF_THRESHOLD_TEST false [] d = None.
 Proof. exact clean_divide_v1_empty_dividend_refuted. Qed.
 Print Assumptions C09_clean_divide_v1_empty_dividend_refuted.
+
+(* ---------------------------------------------------------------- extended gcd *)
+Example C09_ex_xgcd :
+  match pdiv_xgcd bfe_ops (map bfe_new [1; 0; 1]) (map bfe_new [1; 1]) with
+  | PdOk (g, a, b) => (map bfe_value g, map bfe_value a, map bfe_value b)
+  | _ => ([], [], [])
+  end = ([1], [9223372034707292161], [9223372034707292161; 9223372034707292160]).
+Proof. vm_compute. reflexivity. Qed.
+(* xgcd never panics and never runs out of fuel; Bezout identity; g divides both inputs and is divisible by every
+   common divisor; g is monic or zero - for ALL inputs, zero operands included *)
+Theorem C09_xgcd_spec : forall F K (o : fops F) (fk : fieldK K) ok den, field_ok o fk ok den ->
+  forall x y, Forall ok x -> Forall ok y ->
+  exists g a b, pdiv_xgcd o x y = PdOk (g, a, b) /\ Forall ok g /\ Forall ok a /\ Forall ok b /\
+                peq fk (map den g) (padd fk (pmul fk (map den a) (map den x)) (pmul fk (map den b) (map den y))) /\
+                (forall c, pdvd fk c (map den g) <-> pdvd fk c (map den x) /\ pdvd fk c (map den y)) /\
+                (pzero fk (map den g) \/ plead fk (map den g) = k1 fk).
+Proof. exact (@xgcd_spec). Qed.
+Print Assumptions C09_xgcd_spec.
+Theorem C09_xgcd_divides : forall F K (o : fops F) (fk : fieldK K) ok den, field_ok o fk ok den ->
+  forall x y g a b, Forall ok x -> Forall ok y -> pdiv_xgcd o x y = PdOk (g, a, b) ->
+  pdvd fk (map den g) (map den x) /\ pdvd fk (map den g) (map den y) /\
+  (pzero fk (map den g) <-> pzero fk (map den x) /\ pzero fk (map den y)).
+Proof. exact (@xgcd_divides). Qed.
+Print Assumptions C09_xgcd_divides.
+
+(* ---------------------------------------------------------------- power-series inversion *)
+(* formal_power_series_inverse_minimal: f * g = 1 mod X^(precision + 1) for EVERY precision, exactly precision + 1
+   coefficients; it panics exactly when the constant coefficient is missing or zero *)
+Theorem C09_fpsi_minimal_spec : forall F K (o : fops F) (fk : fieldK K) ok den, field_ok o fk ok den ->
+  forall c0 cs1 n, ok c0 -> Forall ok cs1 -> den c0 <> k0 fk -> 0 <= n ->
+  exists g, pdiv_fpsi_minimal o (c0 :: cs1) n = Some g /\ Forall ok g /\ length g = S (Z.to_nat n) /\
+            pmodx fk (S (Z.to_nat n)) (pmul fk (map den (c0 :: cs1)) (map den g)) (pone fk).
+Proof. exact (@fpsi_minimal_spec). Qed.
+Print Assumptions C09_fpsi_minimal_spec.
+Theorem C09_fpsi_minimal_panics : forall F K (o : fops F) (fk : fieldK K) ok den, field_ok o fk ok den ->
+  forall l n, Forall ok l -> (l = [] \/ exists c0 cs1, l = c0 :: cs1 /\ den c0 = k0 fk) -> pdiv_fpsi_minimal o l n = None.
+Proof. exact (@fpsi_minimal_panics). Qed.
+Print Assumptions C09_fpsi_minimal_panics.
+
+(* formal_power_series_inverse_newton, PARTIAL: the constant case for every precision, and - under the C06 hypotheses on
+   ntt / intt (ntt is the DFT at a root of order 2^l, intt its inverse, for l <= lmax), which enter through C07's
+   `multiply` - every precision whose Newton rounds all run before the switch to the NTT domain
+   (num_rounds <= switch_point).  Not proved: the NTT-domain rounds (C09_fpsi_newton_full stays a Definition). *)
+Theorem C09_fpsi_newton_constant : forall F K (o : fops F) (fk : fieldK K) ok den, field_ok o fk ok den ->
+  forall ntt intt l n, Forall ok l -> poly_degree o l = 0 ->
+  exists g, pdiv_fpsi_newton o ntt intt l n = Some g /\ Forall ok g /\ peq fk (pmul fk (map den l) (map den g)) (pone fk).
+Proof. exact (@fpsi_newton_constant). Qed.
+Print Assumptions C09_fpsi_newton_constant.
+Theorem C09_fpsi_newton_partial : forall F K (o : fops F) (fk : fieldK K) ok den, field_ok o fk ok den ->
+  forall (ntt intt : list F -> option (list F)) (lmax : nat) (wr : nat -> K),
+  (forall l x, (l <= lmax)%nat -> length x = (2 ^ l)%nat -> Forall ok x ->
+     exists y, ntt x = Some y /\ Forall ok y /\ length y = length x /\ map den y = dft fk (wr l) (map den x)) ->
+  (forall l x, (l <= lmax)%nat -> length x = (2 ^ l)%nat -> Forall ok x ->
+     exists y, intt x = Some y /\ Forall ok y /\ length y = length x /\ map den y = idft fk (wr l) (map den x)) ->
+  (forall l, (l <= lmax)%nat -> half_root fk (wr l) l) -> (forall l, (l <= lmax)%nat -> wr l <> k0 fk) -> two_neq_0 fk ->
+  forall c0 cs n, Forall ok (c0 :: cs) -> den c0 <> k0 fk -> 0 <= n -> 1 <= poly_degree o (c0 :: cs) ->
+  let sd := poly_degree o (c0 :: cs) in
+  let nr := Z.log2 (next_pow2 n) in
+  let sp := (if FORMAL_POWER_SERIES_INVERSE_CUTOFF <? sd then 0 else Z.log2 (FORMAL_POWER_SERIES_INVERSE_CUTOFF / sd)) in
+  nr <= sp -> newton_len sd (Z.to_nat nr) <= 2 ^ Z.of_nat lmax ->
+  exists g, pdiv_fpsi_newton o ntt intt (c0 :: cs) n = Some g /\ Forall ok g /\
+            pmodx fk (Z.to_nat n) (pmul fk (map den (c0 :: cs)) (map den g)) (pone fk).
+Proof. exact (@fpsi_newton_std_dft). Qed.
+Print Assumptions C09_fpsi_newton_partial.
+Definition C09_fpsi_newton_full : Prop :=
+  forall l n, Forall canon l -> 0 <= n -> n * Z.max 1 (poly_degree bfe_ops l) < 2 ^ 30 ->
+  (exists c0 cs, l = c0 :: cs /\ bden c0 <> k0 fp_field) ->
+  exists g, pdiv_fpsi_newton bfe_ops ntt_b intt_b l n = Some g /\ Forall canon g /\
+            pmodx fp_field (Z.to_nat n) (pmul fp_field (map bden l) (map bden g)) (pone fp_field).
+
+(* ---------------------------------------------------------------- structured multiples *)
+(* PARTIAL: the documented panics (zero polynomial, requested degree below the degree) and the constant case: a multiple
+   of degree exactly n - NOT monic unless the constant is 1 (the doc comment promises X^n + ...; callers inside the
+   crate never pass a constant).  Not proved: degree >= 1 (C09_structured_multiple_full stays a Definition). *)
+Theorem C09_structured_multiple_panics : forall F (o : fops F) ntt intt l n,
+  (poly_degree o l < 0 \/ n < poly_degree o l) -> pdiv_structured_multiple_of_degree o ntt intt l n = None.
+Proof. exact (@structured_multiple_panics). Qed.
+Print Assumptions C09_structured_multiple_panics.
+Theorem C09_structured_multiple_constant : forall F K (o : fops F) (fk : fieldK K) ok den, field_ok o fk ok den ->
+  forall ntt intt l n, Forall ok l -> poly_degree o l = 0 -> 0 <= n ->
+  exists r, pdiv_structured_multiple_of_degree o ntt intt l n = Some r /\ Forall ok r /\
+            pdvd fk (map den l) (map den r) /\ pdeg fk (map den r) = n /\
+            forall c0, idx l 0 = Some c0 -> plead fk (map den r) = kinv fk (den c0).
+Proof. exact (@structured_multiple_constant). Qed.
+Print Assumptions C09_structured_multiple_constant.
+Definition C09_structured_multiple_full : Prop :=
+  forall l n, Forall canon l -> 1 <= poly_degree bfe_ops l <= n -> n < 2 ^ 30 ->
+  exists r, pdiv_structured_multiple_of_degree bfe_ops ntt_b intt_b l n = Some r /\ Forall canon r /\
+            pdvd fp_field (map bden l) (map bden r) /\ pdeg fp_field (map bden r) = n /\ plead fp_field (map bden r) = k1 fp_field.
